@@ -155,11 +155,6 @@ def scopeViolations (p : Block) : List Viol := blockV rootCtx p
 
 /-! ## Part 2: typing -/
 
-/-- A rule of the documents that the checker has no diagnostic site for: a member expression that
-is not a callee, a callee that is neither a name nor a method, an index assignment whose root is not
-a variable.  Reported as a `tyBinary`-category (type mismatch) violation at the node. -/
-def shapeRule : Rule := .tyMutReceiver
-
 abbrev TScope := List (Bytes × VType)
 
 structure TEnv where
@@ -222,12 +217,6 @@ def typeOf (te : TEnv) : Expr → Option VType
                 | none => some .dynamic
       | _ => none
 
-def isVarRooted : Expr → Bool
-  | .var _ _ _ => true
-  | .index a _ _ _ => isVarRooted a
-  | .member o _ _ _ => isVarRooted o
-  | _ => false
-
 /-- Argument types against the documented parameter types. -/
 def argsOk (te : TEnv) : List (Option VType) → List Expr → Bool
   | w :: ws, a :: as => (match typeOf te a with | some t => Doc.argOk w t | none => true) && argsOk te ws as
@@ -251,7 +240,7 @@ mutual
            | some a, some b => vIf (!Doc.binaryOk op a b) .tyBinary s
            | _, _ => [])
     | .unary op e s => exprT te e ++ tyIf (typeOf te e) (Doc.unaryOk op) .tyUnary s
-    | .member o _ _ s => (shapeRule, s) :: exprT te o
+    | .member o _ _ s => exprT te o ++ [(Rule.bareMember, s)]
     | .call callee args _ s =>
         match callee with
         | .var fname _ _ =>
@@ -271,7 +260,7 @@ mutual
                          ++ vIf (args.length != m.arity) .arityMethod ms
                          ++ vIf (!argsOk te (Doc.methodArgs m.kind m.name) args) .tyMethodArg ms)
               ++ exprsT te args
-        | f => (shapeRule, s) :: (exprT te f ++ exprsT te args)
+        | f => exprT te f ++ [(Rule.badCallee, s)] ++ exprsT te args
   def exprsT (te : TEnv) : List Expr → List Viol
     | [] => []
     | e :: es => exprT te e ++ exprsT te es
@@ -361,7 +350,7 @@ mutual
             exprT here e ++ stmtsT n te (tDeclare cur x ((typeOf here e).getD .dynamic)) seen ss
         | .assignExisting _ _ e _ _ _ => exprT here e ++ stmtsT n te cur seen ss
         | .assignIndex t e _ sp =>
-            vIf (!isVarRooted t) shapeRule sp ++ exprT here t ++ exprT here e ++ stmtsT n te cur seen ss
+            exprT here t ++ exprT here e ++ vIf (!isVarRooted t) .badIndexRoot sp ++ stmtsT n te cur seen ss
         | .ifS c t e _ _ =>
             exprT here c ++ tyIf (typeOf here c) Doc.condOk .tyCond c.span ++ blockT n here t
               ++ (match e with | some e => blockT n here e | none => []) ++ stmtsT n te cur seen ss
